@@ -365,7 +365,16 @@ def rule_idioms(ctx):
     ctx.covered('R11.6', 'element->Cartesian maps: every position/velocity component is offset by the same component of the primary', n, floor=12, samples=samples[:3])
 
 
+def rule_components(ctx):
+    only = {'reb_orbit_from_particle_err', 'reb_tools_particle_to_pal', 'reb_particle_from_pal', 'reb_particle_from_orbit_err', 'reb_particle_from_fmt_errV',
+            'reb_tools_spherical_to_xyz', 'reb_tools_xyz_to_spherical'}
+    stats, nfun = x1.run_files(ctx, 'R11.7', ['tools.c'], only=only)
+    ctx.covered('R11.7', 'x/y/z statement triples of the orbit conversion functions outside the reference-plane stanzas (relative position and velocity, '
+                'angular momentum, eccentricity vector) are one formula under an axis permutation', stats['groups'], floor=10, samples=stats['samples'])
+
+
 def run(ctx):
+    rule_components(ctx)
     errs = rule_argument_classes(ctx)
     rule_error_codes(ctx, errs)
     rule_defaults(ctx)
